@@ -301,7 +301,7 @@ def kid_sorts(node):
     if op == "rowV":
         return ["t", "v"]
     if op == "tarith":
-        return {"ts": ["t"], "tl": ["t"], "tv": ["t", "v"], "tt": ["t", "t"]}[node["form"]]
+        return {"ts": ["t"], "tl": ["t"], "st": ["t"], "lt": ["t"], "tv": ["t", "v"], "tt": ["t", "t"]}[node["form"]]
     if op == "join":
         return ["t", "t"]
     return ["v"]
@@ -600,16 +600,20 @@ class Runner:
             fn, sym = BIN[fnname], BINSYM[fnname]
             aop = "add" if fnname == "add" else "gen"
             cols = a.cols()
-            if form in ("ts", "tl"):
-                node2 = dict(node, form="vs" if form == "ts" else "vl")
+            if form in ("ts", "tl", "st", "lt"):
+                refl = form in ("st", "lt")          # scalar / list on the LEFT of the table
+                node2 = dict(node, form="vs" if form in ("ts", "st") else "vl")
                 other, ow = _other(node2)
-                scalar = form == "ts"
+                scalar = form in ("ts", "st")
                 osrc = VSRC[node["s"]] if scalar else "[" + ", ".join(VSRC[i] for i in node["l"]) + "]"
                 orc = []
                 for c in cols:
                     xs = list(c)
                     ys = [other] * len(xs) if scalar else list(other)
-                    orc.append(_bin_oracle(fn, False, xs, ys, scalar, _date_path(fnname, False, c, False, other)))
+                    orc.append(_bin_oracle(fn, refl, xs, ys, scalar, _date_path(fnname, refl, c, False, other)))
+                if refl:
+                    return ("tarith", {"aop": "radd" if fnname == "add" else "gen", "other": ow}, {"bin": orc}, lambda: fn(other, a),
+                            lambda v: f"{osrc} {sym} {A}")
                 return ("tarith", {"aop": aop, "other": ow}, {"bin": orc}, lambda: fn(a, other), lambda v: f"{A} {sym} {osrc}")
             b = objs[1]
             orc = []
@@ -851,12 +855,12 @@ def build(rng, sort, depth, n):
             key = {"op": "leaf", "vals": [rng.choice([3, 4, 5]) for _ in range(rng.randint(0, 3))], "name": None}
         return {"op": op, "kids": [sub("t"), key]}
     if op == "tarith":
-        form = rng.choice(["ts", "ts", "tl", "tv", "tt", "tt"])
+        form = rng.choice(["ts", "ts", "tl", "tv", "tt", "tt", "st", "st", "lt"])
         node = {"op": op, "fn": rng.choice(list(BIN)), "form": form,
                 "kids": [sub("t")] + ([sub("v")] if form == "tv" else [sub("t")] if form == "tt" else [])}
-        if form == "ts":
+        if form in ("ts", "st"):
             node["s"] = rng.choice(SCALARS)
-        if form == "tl":
+        if form in ("tl", "lt"):
             node["l"] = vals()
         return node
     if op == "transposeT":
@@ -1055,6 +1059,9 @@ def name_families(rng, tier):
             t2 = {"op": "table", "kids": [{"op": "leaf", "vals": leaf_vals(rng, "int", n, False), "name": rng.choice([None, "a", "b", rng.choice(pool)])}
                                           for _ in range(k)]}
             node = {"op": "tarith", "fn": rng.choice(list(BIN)), "form": "tt", "kids": [t, t2]}
+        elif r < 0.85:
+            # table with a scalar on either side: every column name is kept
+            node = {"op": "tarith", "fn": rng.choice(list(BIN)), "form": rng.choice(["ts", "st", "st"]), "s": rng.choice([4, 5, 8]), "kids": [t]}
         else:
             node = build(rng, "t", 1, n)
             if node.get("kids") and kid_sorts(node)[0] == "t":
